@@ -10,6 +10,7 @@ Two execution modes of the same symbolic histories (harness/seqdiff/exec.go):
 run_property splits the generated histories SVC_SHARE : 1-SVC_SHARE between the modes and runs corpus histories in both."""
 import copy
 import json
+import time
 import os
 import shutil
 import subprocess
@@ -43,7 +44,7 @@ def build_driver(ctx):
     d = VERIF / "ocaml" / "seq"
     drv = d / "seqdriver"
     with Lock("ocaml-seq"):
-        srcs = [VERIF / "coq" / "Model" / f for f in ("Seq.vo", "Track.vo", "Base.vo", "Err.vo")] + [VERIF / "coq" / "Gen" / "ErrTables.vo"] \
+        srcs = [VERIF / "coq" / "Model" / f for f in ("Seq.vo", "Track.vo", "Base.vo", "Err.vo", "SeqFile.vo")] + [VERIF / "coq" / "Gen" / "ErrTables.vo"] \
             + [d / "driver.ml", d / "build.sh", VERIF / "coq" / "Extract" / "SeqExtract.v"]
         missing = [str(s) for s in srcs if not s.exists()]
         if missing:
@@ -56,7 +57,16 @@ def build_driver(ctx):
 
 
 def build(ctx):
-    """Returns dict(ok, why, log, test_bin, driver)."""
+    """Returns dict(ok, why, log, test_bin, driver). One build per check run (ctx): the later T1 stages of a run reuse it."""
+    cached = getattr(ctx, "_seqtie_build", None)
+    if cached and cached.get("ok") and Path(cached["test_bin"]).exists() and Path(cached["driver"]).exists():
+        return cached
+    r = _build(ctx)
+    ctx._seqtie_build = r
+    return r
+
+
+def _build(ctx):
     ok, log = build_driver(ctx)
     if not ok:
         return dict(ok=False, why="model-driver", log=log)
@@ -92,7 +102,7 @@ def _progress(outdir):
 _MODE_DIR = {"direct": "gen", "service": "svc"}
 
 
-def run_generated(ctx, b, profile, n, seed, procs=8, timeout=240, segments=None):
+def run_generated(ctx, b, profile, n, seed, procs=8, timeout=240, segments=None, dir_prefix=None):
     """Generates and executes n histories. Returns dict(dirs=[...], crashes=[(hid, text)], stats, by_mode={mode: dict(dirs, stats, n)}).
     segments: [(mode, first index, count)] — which stream indexes run in which execution mode ("direct" | "service"); all
     segments run at the same time, the processes shared out in proportion. Default: everything direct."""
@@ -109,7 +119,7 @@ def run_generated(ctx, b, profile, n, seed, procs=8, timeout=240, segments=None)
         k = first0
         while k < first0 + count:
             cnt = min(per, first0 + count - k)
-            outdir = ctx.work / ("%s-%d" % (_MODE_DIR.get(mode, mode), k))
+            outdir = ctx.work / ("%s-%d" % (dir_prefix or _MODE_DIR.get(mode, mode), k))
             shutil.rmtree(outdir, ignore_errors=True)
             outdir.mkdir(parents=True)
             jobs.append([k, cnt, outdir, mode])
@@ -119,7 +129,11 @@ def run_generated(ctx, b, profile, n, seed, procs=8, timeout=240, segments=None)
     by_mode = {}
     pending = list(jobs)
     rounds = 0
-    while pending and rounds < 6:
+    # a tree on which histories hang (a timer re-armed with a zero period, a lost wake-up) costs one harness timeout per
+    # round: stop restarting after the budget; what hung is reported (crashes), what never ran is simply not covered
+    t_start = time.time()
+    budget = 540 if getattr(ctx, "tier", "quick") == "quick" else 2400
+    while pending and rounds < 6 and (rounds == 0 or time.time() - t_start < budget):
         rounds += 1
         procs_l = []
         for first, cnt, outdir, mode in pending:
@@ -149,7 +163,7 @@ def run_generated(ctx, b, profile, n, seed, procs=8, timeout=240, segments=None)
                         kk = int(hid.rsplit("-", 1)[1])
                         rest = first + cnt - (kk + 1)
                         if rest > 0:
-                            nd = ctx.work / ("%s-%d" % (_MODE_DIR.get(mode, mode), kk + 1))
+                            nd = ctx.work / ("%s-%d" % (dir_prefix or _MODE_DIR.get(mode, mode), kk + 1))
                             shutil.rmtree(nd, ignore_errors=True)
                             nd.mkdir(parents=True)
                             nxt.append([kk + 1, rest, nd, mode])
@@ -206,8 +220,8 @@ def run_replay(ctx, b, histories, name="replay", timeout=120, mode=None):
 
 def judge(ctx, b, dirs, projections):
     """Runs the replay driver over every trace. Returns {hid: dict(R={proj: None|idx}, T=[(idx,tag)], I=[...], B=str|None, M=[lines],
-    S=[(idx, what)] anomalies of responses that came through the service)} plus the symbolic histories {hid: history} and
-    concrete traces {hid: [lines]}."""
+    S=[(idx, what)] anomalies of responses that came through the service, W=[idx] probes failing views_ok_b (histories that boot
+    on a given state file only))} plus the symbolic histories {hid: history} and concrete traces {hid: [lines]}."""
     res, hist, traces = {}, {}, {}
     for d in dirs:
         tr = d / "trace.txt"
@@ -219,7 +233,7 @@ def judge(ctx, b, dirs, projections):
             f = line.split()
             if len(f) < 3:
                 continue
-            r = res.setdefault(f[1], dict(R={}, T=[], I=[], B=None, M=[], S=[]))
+            r = res.setdefault(f[1], dict(R={}, T=[], I=[], B=None, M=[], S=[], W=[]))
             if f[0] == "R":
                 r["R"][f[2]] = None if f[3] == "ok" else int(f[4])
             elif f[0] == "T":
@@ -228,12 +242,14 @@ def judge(ctx, b, dirs, projections):
                 r["I"].append((int(f[2]), f[3]))
             elif f[0] == "S" and len(f) >= 4:
                 r["S"].append((int(f[2]), f[3]))
+            elif f[0] == "W":
+                r["W"].append(int(f[2]))
             elif f[0] == "B":
                 r["B"] = " ".join(f[2:])
             elif f[0] == "M":
                 r["M"].append(line)
         if rc != 0:
-            res.setdefault("?driver", dict(R={}, T=[], I=[], B="driver failed: " + out[-500:], M=[], S=[]))
+            res.setdefault("?driver", dict(R={}, T=[], I=[], B="driver failed: " + out[-500:], M=[], S=[], W=[]))
         cur = None
         for line in tr.read_text().splitlines():
             if line.startswith("H "):
@@ -289,6 +305,8 @@ def shrink(ctx, b, history, still_fails, budget=40):
         changed = False
         j = len(h["events"]) - 1
         while j >= 0 and tries < budget:
+            if j == 0 and h.get("init_file") is not None:
+                break           # the first event of such a history is the boot on the given file
             if _refs_ok_after_delete(h["events"], j):
                 cand = dict(h)
                 cand["events"] = _delete_event(h["events"], j)
@@ -507,6 +525,260 @@ def run_property(ctx, profile, n, projection, tag_prefixes, crash_is_violation=T
     except Exception as ex:  # noqa
         ctx.note("coq/driver tie T1-seqdiff not run: %r" % (ex,))
     return dict(ok_build=True, mismatches=n_mis, pred_failures=n_pred, crashes=len(crashes))
+
+
+# ------------------------------------------------------------------ T1 stage "boot on an adversarial state file"
+_HX = lambda t: t.encode().hex()  # noqa
+
+INITFILE_N = {"quick": 120, "thorough": 2500}
+INITFILE_PROFILE = {
+    "weights": {"conn": 5, "disc": 3, "try": 22, "lock": 6, "unl": 18, "ren": 10, "cancel": 1, "adv": 16, "restart": 4,
+                "shutdown": 0, "probe": 6, "ipcl": 3, "ipcu": 4},
+    "max_len": 22, "min_len": 8, "sessions": 3,
+    "names": [_HX("a"), _HX("ab"), _HX("b"), _HX("a:b"), _HX("c")],
+    "sizes": [None, None, 1, 2, 2, 3],
+    "lts": [None, None, 0, 1, 2, 3, 5],
+    "wts": [None, 0, 1, 2],
+    "renew_lts": [1, 2, 3, 5],
+    "advs": [0, 1, 499999999, 500000000, 999999999, 1000000000, 1000000001, 1500000000, 2000000000, 3000000000, 5000000000],
+    "noclear": [False, False, True], "file": [True],
+    "gc": [[1800000000000, 300000000000], [2000000000, 1000000000], [1000000000, 0]],
+    "dlt": [3000000000, 1000000000, 600000000000, 500000000, 1500000000, 2000000000, 999999999, 0],
+    "shards": [16, 1, 2, 0, 1000],
+    "probe_every": 2, "probe_around": False, "bad_key_pct": 15, "no_sess_pct": 2, "drain": True, "sticky_size_pct": 60,
+    "init_file_pct": 100,
+}
+INITFILE_CLASSES = {
+    "a": "consistent file (control)",
+    "b": "a lock listed more often than its size, inside one session's list, the surplus followed by / between entries of other names",
+    "c": "entries of one name with different sizes (1 vs 2) inside one session's list",
+    "d": "an entry with an invalid size (0, -1, min int32) inside one session's list",
+    "e": "surplus / size mismatch spread over several sessions (outcome depends on Go's map order; the model side tries every order)",
+    "f": "empty map, sessions with empty lists (alone, next to a consistent list, next to an over-listed one)",
+}
+
+
+def _trace_panic(lines):
+    """The `P <hex>` line the executor appends when a step panicked (recovered inside the bubble), decoded; None when there is none."""
+    for l in lines or []:
+        if l.startswith("P "):
+            try:
+                return bytes.fromhex(l[2:].strip()).decode("utf-8", "replace")
+            except ValueError:
+                return l[2:]
+        if l.startswith("B "):
+            f = l.split()
+            try:
+                return " ".join(f[1:-1]) + " " + bytes.fromhex(f[-1]).decode("utf-8", "replace")
+            except (ValueError, IndexError):
+                return l[2:]
+    return None
+
+
+def _file_entries(h):
+    return [(lk[0], lk[1]) for s_ in (h.get("init_file") or []) for lk in s_.get("locks", [])]
+
+
+def _post_boot_listing(lines):
+    """(name, key) pairs of the first listing of a trace (the probe that follows the boot), or None."""
+    for l in lines or []:
+        f = l.split()
+        if len(f) >= 3 and f[0] == "O" and f[1] == "listing":
+            try:
+                n = int(f[2])
+                return set((f[3 + 3 * i], f[4 + 3 * i]) for i in range(n))
+            except (ValueError, IndexError):
+                return None
+    return None
+
+
+def initfile_failures(r, lines, projection):
+    """-> (real failures, model differences) of one judged init-file history. Real: a probe whose views disagree / exceed capacity
+    (driver line W: Model/SeqFile.v views_ok_b, which reads the real observations only), a panic. Model differences: R mismatch
+    under "all" or the property's projection, an unreadable trace."""
+    real = ["VIEWS:listing-file-table-disagree-or-over-capacity@%d" % i for i in r.get("W", [])]
+    p = _trace_panic(lines)
+    if p is not None:
+        real.append("PANIC:" + p[:200])
+    model = []
+    if r.get("B"):
+        model.append("bad-trace:" + r["B"])
+    for pj in dict.fromkeys(["all", projection]):
+        if r["R"].get(pj) is not None:
+            model.append("mismatch[%s]@%d" % (pj, r["R"][pj]))
+    return real, model
+
+
+def _shrink_init_file(h, still_fails, budget):
+    """Greedy deletion of sessions, then of single entries, of the initial file."""
+    h = copy.deepcopy(h)
+    tries = 0
+    i = len(h["init_file"]) - 1
+    while i >= 0 and tries < budget:
+        cand = copy.deepcopy(h)
+        del cand["init_file"][i]
+        cand["id"] = "shrink"
+        tries += 1
+        if still_fails(cand):
+            h = cand
+        i -= 1
+    for si in range(len(h["init_file"]) - 1, -1, -1):
+        j = len(h["init_file"][si]["locks"]) - 1
+        while j >= 0 and tries < budget:
+            cand = copy.deepcopy(h)
+            del cand["init_file"][si]["locks"][j]
+            cand["id"] = "shrink"
+            tries += 1
+            if still_fails(cand):
+                h = cand
+            j -= 1
+    return h
+
+
+def initfile_stage(ctx, n=None, projection="all", seed_offset=23):
+    """T1 stage "boot on an adversarial state file" (Model/SeqFile.v). n histories (default by tier) are generated, each with a
+    state file drawn by harness/seqdiff/gen.go InitFile (classes INITFILE_CLASSES, unique (name, key) pairs), written with the real
+    store before the first boot; the history's first event is that boot, then a probe, then ordinary events. Judged by the driver
+    (ocaml/seq/driver.ml, `F` line): replay on Mseq from file_state (R lines, "all" and the property's projection) and the
+    model-independent views predicate on every probe (W lines). The hold tracker (T / I lines) is not run on these histories.
+      W line / panic / process crash  = a REAL failing input             -> failing_<hid>.json (shrunk history as replay)
+      only R mismatches               = correspondence broken            -> correspondence_<hid>.json, no_failing_input
+    Returns dict(ok_build, mismatches, real_failures, crashes)."""
+    tie = ctx.coverage["ties"].setdefault("T1-initfile", {})
+    b = build(ctx)
+    if not b["ok"]:
+        tie["build"] = "failed: " + b["why"]
+        if not any(v[0].endswith("build_failure.json") for v in ctx.violations):
+            ctx.violation({"broken": "build", "stage": b["why"], "log": b["log"]},
+                          "the tree under test (or the harness against it) does not build: nothing is shown to hold",
+                          name="build_failure.json", no_failing_input=True)
+        return dict(ok_build=False)
+    if n is None:
+        n = INITFILE_N.get(ctx.tier, INITFILE_N["quick"])
+    projs = ["all", projection] if projection != "all" else ["all"]
+    g = run_generated(ctx, b, INITFILE_PROFILE, n, ctx.seed + seed_offset, dir_prefix="initf")
+    results, hist, traces = judge(ctx, b, g["dirs"], projs)
+    crashes = g["crashes"]
+
+    def refail_real(hh):
+        rr = run_replay(ctx, b, [hh], name="shrink-initf", timeout=60)
+        if rr["crashes"]:
+            return True
+        r3, _, t3 = judge(ctx, b, rr["dirs"], projs)
+        return any(initfile_failures(v, t3.get(k_), projection)[0] for k_, v in r3.items())
+
+    def refail_model(hh):
+        rr = run_replay(ctx, b, [hh], name="shrink-initf", timeout=60)
+        if rr["crashes"]:
+            return False
+        r3, _, t3 = judge(ctx, b, rr["dirs"], projs)
+        return any(initfile_failures(v, t3.get(k_), projection)[1] for k_, v in r3.items())
+
+    def shrunk(h, pred):
+        try:
+            s1 = shrink(ctx, b, h, pred, budget=60)
+            s1["id"] = h["id"]
+            s2 = _shrink_init_file(s1, pred, budget=20)
+            s2["id"] = h["id"] + "-shrunk"
+            return s2
+        except Exception as ex:  # noqa
+            ctx.note("initfile shrink failed: %r" % (ex,))
+            return None
+
+    n_real, n_model, reported, w_lines, first_model = 0, 0, 0, 0, None
+    per_class = {}
+    refused, entries, probes, boots_with_refusal = 0, 0, 0, 0
+    for hid, h in sorted(hist.items()):
+        cls = h.get("init_class") or "?"
+        pc = per_class.setdefault(cls, {"histories": 0, "file_entries": 0, "refused_on_real_server": 0, "mismatches": 0, "real_failures": 0})
+        pc["histories"] += 1
+        ents = _file_entries(h)
+        pc["file_entries"] += len(ents)
+        entries += len(ents)
+        lines = traces.get(hid, [])
+        probes += sum(1 for l in lines if l == "E probe")
+        lst = _post_boot_listing(lines)
+        if lst is not None:
+            k_ = sum(1 for e in ents if e not in lst)
+            refused += k_
+            pc["refused_on_real_server"] += k_
+            boots_with_refusal += 1 if k_ else 0
+    for hid, r in sorted(results.items()):
+        if hid == "?driver":
+            ctx.violation({"broken": "machinery", "what": r["B"]}, "the model replay driver failed on the init-file traces",
+                          name="initfile_driver_failure.json", no_failing_input=True)
+            continue
+        lines = traces.get(hid, [])
+        real, model = initfile_failures(r, lines, projection)
+        w_lines += len(r.get("W", []))
+        cls = (hist.get(hid) or {}).get("init_class") or "?"
+        if real:
+            n_real += 1
+            per_class.setdefault(cls, {}).setdefault("real_failures", 0)
+            per_class[cls]["real_failures"] += 1
+            if reported < 2:
+                reported += 1
+                h = hist.get(hid)
+                shr = shrunk(h, refail_real) if h is not None else None
+                ctx.violation({"kind": "failing-history", "stage": "T1-initfile (boot on a given state file)", "property": ctx.prop,
+                               "failed_checks": real, "model_differences": model, "init_class": cls,
+                               "what": "after the real server booted on this state file (written with the real store), a probe shows a listing, a state "
+                                       "file and a lock table that do not hold the same holds, or a lock with more keys than its size, or the server panicked",
+                               "history": h, "shrunk": shr, "trace": lines, "model_says": r["M"][:20], "seed": ctx.seed,
+                               "replay_cmd": "bin/check %s --replay <this file>" % ctx.prop},
+                              "real server booted on a generated state file violates %s: %s (history %s, file class %s)"
+                              % (ctx.prop, ", ".join(real[:3]), hid, cls), name="failing_%s.json" % hid)
+        elif model:
+            n_model += 1
+            per_class.setdefault(cls, {}).setdefault("mismatches", 0)
+            per_class[cls]["mismatches"] += 1
+            if first_model is None:
+                first_model = (hid, model, r)
+    for hid, text, d in crashes:
+        n_real += 1
+        if reported < 3:
+            reported += 1
+            ctx.violation({"kind": "crash", "stage": "T1-initfile (boot on a given state file)", "property": ctx.prop, "history_id": hid,
+                           "history": hist.get(hid), "output": text, "dir": d,
+                           "note": "the harness process died while executing this history (the symbolic history of a generated run is written when it "
+                                   "completes: re-run with VERIF_SEED=%s to regenerate it)" % ctx.seed},
+                          "the server crashed the process while booting on / running from a generated state file (history %s)" % hid,
+                          name="failing_%s.json" % hid.replace("?", "x"))
+    if n_model and not n_real:
+        hid, model, r = first_model
+        h = hist.get(hid)
+        shr = shrunk(h, refail_model) if h is not None else None
+        ctx.violation({"broken": "correspondence T1-initfile (projections all, %s)" % projection, "history_id": hid, "first_difference": model,
+                       "init_class": (h or {}).get("init_class"), "history": h, "shrunk": shr, "trace": traces.get(hid), "model_says": r["M"][:20],
+                       "mismatching_histories": n_model,
+                       "replay_cmd": "bin/check %s --replay <this file>" % ctx.prop},
+                      "model (Mseq from file_state) and implementation disagree on %d histories that boot on a generated state file; no real "
+                      "trace violating the views predicate was found" % n_model, name="correspondence_%s.json" % hid, no_failing_input=True)
+    tie.update({"histories": len(hist), "generated": n, "replayed_on_model": len(results), "projections": projs,
+                "per_class": {k_: dict(v, what=INITFILE_CLASSES.get(k_, "")) for k_, v in sorted(per_class.items())},
+                "file_entries": entries, "refused_entries_observed_on_real_server": refused, "boots_with_a_refused_entry": boots_with_refusal,
+                "probes_judged": probes, "mismatches": n_model, "W_failures": w_lines, "histories_with_real_failure": n_real,
+                "crashes": len(crashes), "generator_distribution": g["stats"],
+                "rule": ("every history: state file drawn from one PCG stream (seed %d, stream = index), written with the real store, first event = "
+                         "boot (restart) + probe, then generated events; file classes: see per_class; (name, key) pairs of a file are unique; refused = "
+                         "file entries absent from the listing of the first probe; judged by replay_history_from_any (Mseq from file_state, any order "
+                         "of the file's sessions at the first boot) and views_failures on every probe; the hold tracker (Track.v) is not run: it follows "
+                         "holds from their grants" % (ctx.seed + seed_offset))})
+    ctx.coverage["traces_validated_against_impl"] = ctx.coverage.get("traces_validated_against_impl", 0) + len(results)
+    ctx.coverage["evaluations"] = ctx.coverage.get("evaluations", 0) + len(results)
+    if traces:
+        hid = sorted(traces)[0]
+        tie["sample"] = {"history_id": hid, "trace_head": [l[:600] for l in traces[hid][:8]]}
+    if refused == 0 and not n_real:
+        ctx.note("T1-initfile: no refused entry observed on the real server — the stage did not reach restore's refusal branches")
+    try:
+        from . import coqeval
+        coqeval.hook(ctx, "T1-initfile", coqeval.seqfile_sample, g["dirs"], projection=projection, driver=b["driver"])
+    except Exception as ex:  # noqa
+        ctx.note("coq/driver tie T1-initfile not run: %r" % (ex,))
+    ctx.note("T1-initfile: %d histories, %d file entries of which %d refused by the real server (%d boots), %d probes, %d model mismatches, %d real failures"
+             % (len(hist), entries, refused, boots_with_refusal, probes, n_model, n_real))
+    return dict(ok_build=True, mismatches=n_model, real_failures=n_real, crashes=len(crashes))
 
 
 # ------------------------------------------------------------------ C07: metamorphic inertness (twin runs)
